@@ -3,10 +3,15 @@
 Two case kinds.
 
   {"kind": "hist", "head": "b"|"u", "init": {"mode": "ctor"|"triples", "items": [ids]},
-   "extra": [[s,p,o]…], "ops": [["append",x] | ["iadd",[x…]] | ["set",i,x] | ["del",i] | ["clear"]],
+   "extra": [[s,p,o]…], "ops": [["append",x] | ["iadd",[x…],shape] | ["iaddself"] | ["ctor",[x…],shape] |
+                                ["set",i,x] | ["del",i] | ["clear"]],
    "probe": [member ids]}
       A history of list operations on `Collection(g, head)`; the start list is built either by
       the constructor (`Collection(g, head, seq)`) or from hand-written rdf:first/rdf:rest triples.
+      `shape` says how the operand of `+=` / the constructor is handed over: list, tuple, generator,
+      iter(list), map object, dict keys view, another Collection (in a graph of its own); `iaddself` is
+      `c += c`; `ctor` re-opens the collection in mid-history with `Collection(g, head, seq)` on a head
+      that already carries a list (it must behave as `+= seq`).
       After the construction and after every operation a *snapshot* of all reads is taken:
       list(c), len(c), c[i] for i in [-(n+2), n+1], c.index(x) and `x in c` for every probe member,
       and the triple footprint (independent walker: well-formed chain, no orphaned cells,
@@ -21,6 +26,7 @@ Terms are small integers: 0 = rdf:first, 1 = rdf:rest, 2 = rdf:nil, 5/6 other pr
 subject, 10…19 members (falsy literals and look-alikes included), 100… cells (100 = head).
 Blank nodes minted by rdflib never cross the protocol (footprints are compared by shape).
 """
+import signal
 import warnings
 
 import core  # noqa: F401
@@ -34,7 +40,9 @@ LEAN_TARGETS = ["RV.C19.Props", "RV.C19.Audit"]
 AUDIT = "RV/C19/Audit.lean"
 DRIVER = "drv_c19"
 CASES = {"quick": 1400, "thorough": 40000, "search": 20000}
-RULE = ("histories (1-12 ops) of append / += / item assignment / item deletion / clear on Collection(g, head) from "
+RULE = ("histories (1-12 ops) of append / += (operand as list, tuple, generator, iter(list), map, dict keys view, "
+        "another Collection, the collection itself) / Collection(g, head, seq) re-opened on the list in mid-history / "
+        "item assignment / item deletion / clear on Collection(g, head) from "
         "start lengths 0-5 built by the constructor or from hand-written triples, members from a falsy-aware vocabulary "
         "with duplicates, indices in [-(n+2), n+1], full read snapshot + footprint after every op; plus broken/cyclic "
         "chains with every read under the watchdog.  non-trivial = a history with at least one successful mutation of a "
@@ -94,6 +102,36 @@ def _decoy_ok(ds):
     return all(len(c) == 4 for c in (ds.graph(URIRef("http://e/other")), ds.default_context))
 
 
+SHAPES = ["list", "tuple", "gen", "iter", "map", "dictkeys", "coll"]
+ONE_SHOT = ("gen", "iter", "map")
+
+
+def _eff(xs, shape):
+    """the items an operand of that shape really delivers (a dict drops duplicates)"""
+    return list(dict.fromkeys(xs)) if shape == "dictkeys" else list(xs)
+
+
+def _make(shape, terms):
+    terms = list(terms)
+    if shape == "tuple":
+        return tuple(terms)
+    if shape == "gen":
+        return (t for t in terms)
+    if shape == "iter":
+        return iter(terms)
+    if shape == "map":
+        return map(lambda t: t, terms)
+    if shape == "dictkeys":
+        return dict.fromkeys(terms).keys()
+    if shape == "coll":
+        return Collection(Graph(), BNode(), terms)
+    return terms
+
+
+def _shape(op):
+    return op[2] if len(op) > 2 else "list"
+
+
 # ------------------------------------------------------------------ generators
 
 
@@ -116,6 +154,10 @@ def _gen_hist(rng, tier):
     n0 = rng.choice([0, 0, 1, 1, 2, 2, 3, 3, 4, 5])
     items = [_member(rng, voc) for _ in range(n0)]
     mode = rng.choice(["ctor", "triples"])
+    shape0 = rng.choice(SHAPES)
+    if mode == "ctor":
+        items = _eff(items, shape0)
+        n0 = len(items)
     extra = []
     for _ in range(rng.choice([0, 0, 1, 2, 3])):
         s = rng.choice([HEAD, 7, 7])
@@ -126,11 +168,19 @@ def _gen_hist(rng, tier):
     ops, n = [], n0
     for _ in range(rng.randint(1, 12 if tier == "quick" else 16)):
         r = rng.random()
-        if r < 0.24:
+        if r < 0.2:
             ops.append(["append", _member(rng, voc)]); n += 1
-        elif r < 0.4:
-            xs = [_member(rng, voc) for _ in range(rng.choice([0, 1, 1, 2, 3]))]
-            ops.append(["iadd", xs]); n += len(xs)
+        elif r < 0.36:
+            if rng.random() < 0.12 and n <= 8:
+                ops.append(["iaddself"]); n += n
+            else:
+                sh = rng.choice(SHAPES)
+                xs = _eff([_member(rng, voc) for _ in range(rng.choice([0, 1, 1, 2, 3]))], sh)
+                ops.append(["iadd", xs, sh]); n += len(xs)
+        elif r < 0.43:
+            sh = rng.choice(SHAPES)
+            xs = _eff([_member(rng, voc) for _ in range(rng.choice([0, 1, 1, 2, 3]))], sh)
+            ops.append(["ctor", xs, sh]); n += len(xs)
         elif r < 0.62:
             i = rng.randint(-(n + 2), n + 1) if rng.random() < 0.35 or n == 0 else rng.randrange(n)
             if i == n:          # known finding C19-K1 (c[len(c)] = x): only ever generated as a last op, below
@@ -151,7 +201,7 @@ def _gen_hist(rng, tier):
     absent = [m for m in MEMBERS if m not in voc]
     probe = sorted(set(voc[:6] + ([rng.choice(absent)] if absent else [])))
     return {"kind": "hist", "head": head, "g": rng.choice(["mem", "mem", "simple", "ds"]),
-            "init": {"mode": mode, "items": items}, "extra": extra, "ops": ops, "probe": probe}
+            "init": {"mode": mode, "items": items, "shape": shape0}, "extra": extra, "ops": ops, "probe": probe}
 
 
 def _chain(cells, items, last=NIL):
@@ -331,7 +381,9 @@ def _run_hist(case):
     extra0 = sorted(tuple(t) for t in case["extra"])
     obs, viol = [], []
     if case["init"]["mode"] == "ctor":
-        k, c = _call(lambda: Collection(g, head, [T[x] for x in items]))
+        shape0 = case["init"].get("shape", "list")
+        items = _eff(items, shape0)
+        k, c = _call(lambda: Collection(g, head, _make(shape0, [T[x] for x in items])))
         obs.append(k)
         if k != "ok":
             viol.append(f"raise: constructor raised {k}")
@@ -346,6 +398,8 @@ def _run_hist(case):
     mutated = False
     stats = {"hist": 1, "start_len_%d" % len(items): 1, "mode_" + case["init"]["mode"]: 1,
              "graph_" + case.get("g", "mem"): 1}
+    if case["init"]["mode"] == "ctor":
+        stats["init_shape_" + case["init"].get("shape", "list")] = 1
     for j, op in enumerate(case["ops"]):
         kind = op[0]
         n = len(l)
@@ -354,12 +408,29 @@ def _run_hist(case):
             l.append(op[1])
             k, _ = _call(lambda: c.append(T[op[1]]))
         elif kind == "iadd":
-            l += op[1]
+            xs = _eff(op[1], _shape(op))
+            l += xs
+            stats["iadd_shape_" + _shape(op)] = stats.get("iadd_shape_" + _shape(op), 0) + 1
 
             def f():
                 nonlocal c
-                c += [T[x] for x in op[1]]
+                c += _make(_shape(op), [T[x] for x in xs])
             k, _ = _call(f)
+        elif kind == "iaddself":
+            l += l
+
+            def f():
+                nonlocal c
+                c += c
+            k, _ = _call(f)
+        elif kind == "ctor":
+            xs = _eff(op[1], _shape(op))
+            l += xs
+            stats["reopen_shape_" + _shape(op)] = stats.get("reopen_shape_" + _shape(op), 0) + 1
+            stats["reopen_on_len_%s" % (n if n < 3 else "3+")] = stats.get("reopen_on_len_%s" % (n if n < 3 else "3+"), 0) + 1
+            k, c2 = _call(lambda: Collection(g, head, _make(_shape(op), [T[x] for x in xs])))
+            if k == "ok":
+                c = c2
         elif kind == "set":
             if -n <= op[1] < n:
                 l[op[1]] = op[2]
@@ -396,7 +467,7 @@ def _run_hist(case):
     if not _decoy_ok(ds):
         viol.append("frame: the same head's list in another graph of the dataset was touched")
     if any(x in FALSY for x in items) or any(x in FALSY for op in case["ops"] for x in
-                                             (op[1] if op[0] == "iadd" else op[1:])):
+                                             (op[1] if op[0] in ("iadd", "ctor") else op[1:])):
         stats["falsy_member"] = 1
     return {"obs": obs, "viol": viol, "nontrivial": mutated,
             "key": repr((case["head"], case["init"], case["ops"])), "stats": stats}
@@ -451,7 +522,17 @@ def _run_broken(case):
 
 
 def run_impl(case):
-    return _run_hist(case) if case["kind"] == "hist" else _run_broken(case)
+    # core's watchdog is a one-shot SIGALRM whose exception can be swallowed by the bare `except:` clauses of
+    # rdflib's SimpleMemory.add (a loop that never ends then also grows without bound): keep it firing until the
+    # exception gets out, and disarm it on the way out.
+    rem, _ = signal.getitimer(signal.ITIMER_REAL)
+    if rem > 0:
+        signal.setitimer(signal.ITIMER_REAL, rem, 0.2)
+    try:
+        return _run_hist(case) if case["kind"] == "hist" else _run_broken(case)
+    except core.CaseTimeout:
+        signal.setitimer(signal.ITIMER_REAL, 0)
+        raise
 
 
 # ------------------------------------------------------------------ model side
@@ -473,7 +554,8 @@ def model_lines(case):
         lines.append("t " + " ".join(map(str, t)))
     items = case["init"]["items"]
     if case["init"]["mode"] == "ctor":
-        lines.append("ctor " + " ".join(map(str, items)))
+        items = _eff(items, case["init"].get("shape", "list"))
+        lines.append(_ctor_line(items, case["init"].get("shape", "list")))
     else:
         for t in _chain([HEAD + k for k in range(len(items))], items):
             lines.append("t " + " ".join(map(str, t)))
@@ -485,7 +567,13 @@ def model_lines(case):
         if op[0] == "append":
             l.append(op[1]); lines.append(f"append {op[1]}")
         elif op[0] == "iadd":
-            l += op[1]; lines.append("iadd " + " ".join(map(str, op[1])))
+            xs = _eff(op[1], _shape(op))
+            l += xs; lines.append("iadd " + " ".join(map(str, xs)))
+        elif op[0] == "iaddself":
+            lines.append("iadd " + " ".join(map(str, l))); l += l
+        elif op[0] == "ctor":
+            xs = _eff(op[1], _shape(op))
+            l += xs; lines.append(_ctor_line(xs, _shape(op)))
         elif op[0] == "set":
             if -n <= op[1] < n:
                 l[op[1]] = op[2]
@@ -498,6 +586,11 @@ def model_lines(case):
             l.clear(); lines.append("clear")
         lines.append(_snapline(len(l), case["probe"]))
     return lines
+
+
+def _ctor_line(xs, shape):
+    """`Collection(g, head, seq)` runs `self += seq` iff `seq` is truthy: an exhausted one-shot iterator is"""
+    return ("iadd" if shape in ONE_SHOT else "ctor") + "".join(f" {x}" for x in xs)
 
 
 def select_model_obs(case, out):
@@ -535,8 +628,15 @@ def shrink(case):
     for i in range(len(case["probe"])):
         yield {**case, "probe": case["probe"][:i] + case["probe"][i + 1:]}
     for i, op in enumerate(ops):
-        if op[0] == "iadd" and op[1]:
-            yield {**case, "ops": ops[:i] + [["iadd", op[1][:-1]]] + ops[i + 1:]}
+        if op[0] in ("iadd", "ctor") and op[1]:
+            yield {**case, "ops": ops[:i] + [[op[0], op[1][:-1]] + op[2:]] + ops[i + 1:]}
+    for i, op in enumerate(ops):                     # plainest operand shape, plainest operation
+        if op[0] in ("iadd", "ctor") and _shape(op) != "list":
+            yield {**case, "ops": ops[:i] + [[op[0], op[1]]] + ops[i + 1:]}
+        if op[0] == "ctor":
+            yield {**case, "ops": ops[:i] + [["iadd"] + op[1:]] + ops[i + 1:]}
+    if case["init"].get("shape", "list") != "list":
+        yield {**case, "init": {**case["init"], "shape": "list"}}
     lo = min(MEMBERS)
     for i, op in enumerate(ops):                     # canonical members
         if op[0] in ("append", "set") and op[-1] != lo:
@@ -557,8 +657,10 @@ def _apply(l, op):
     n = len(l)
     if op[0] == "append":
         return l + [op[1]], True
-    if op[0] == "iadd":
-        return l + list(op[1]), True
+    if op[0] in ("iadd", "ctor"):
+        return l + _eff(op[1], _shape(op)), True
+    if op[0] == "iaddself":
+        return l + l, True
     if op[0] == "clear":
         return [], True
     if not -n <= op[1] < n:
